@@ -1,5 +1,7 @@
 package main
 
+import "reflect"
+
 func init() {
 	register(&propertySpec{
 		ID:          "C02",
@@ -174,7 +176,19 @@ func init() {
 
 // cross-listings and rules added after the second round of independent changes (DESIGN.md section 11)
 func init() {
-	add := func(id string, rules ...ruleFn) { registry[id].Rules = append(registry[id].Rules, rules...) }
+	add := func(id string, rules ...ruleFn) {
+		for _, f := range rules {
+			dup := false
+			for _, g := range registry[id].Rules {
+				if reflect.ValueOf(f).Pointer() == reflect.ValueOf(g).Pointer() {
+					dup = true
+				}
+			}
+			if !dup {
+				registry[id].Rules = append(registry[id].Rules, f)
+			}
+		}
+	}
 	add("C01", ruleR09_4, ruleR09_5, ruleR04_7)
 	add("C02", ruleR09_2, ruleR04_7)
 	add("C03", ruleR09_3, ruleR15_4, ruleR03_8)
@@ -343,7 +357,22 @@ func init() {
 	add("C17", ruleR17_14)
 	add("C12", ruleR12_11, ruleR12_12)
 	add("C11", ruleR12_12)
-	add("C16", ruleR12_11, ruleR16_15)
+	add("C16", ruleR12_11, ruleR16_15, ruleR16_16)
+	add("C18", ruleR18_10)
+	add("C19", ruleR18_10)
+	// what caught the unseen mutants of round 10 under another property only
+	add("C01", ruleR05_5, ruleR03_2)
+	add("C14", ruleR03_2, ruleR10_1, ruleR10_5, ruleR15_7)
+	add("C02", ruleR09_3)
+	add("C19", ruleR09_3, ruleR18_4)
+	add("C03", ruleR10_1, ruleR10_5)
+	add("C04", ruleR15_1, ruleR10_6)
+	add("C05", ruleR02_4)
+	add("C06", ruleR07_5)
+	add("C08", ruleR07_5)
+	add("C07", ruleR20_3, ruleR18_5, ruleR06_2)
+	add("C15", ruleR05_1)
+	add("C17", ruleR18_2, ruleR18_3)
 	for _, id := range []string{"C09", "C13", "C10", "C02", "C19"} {
 		add(id, ruleR09_17)
 	}
